@@ -49,6 +49,10 @@ CHECKS = {
    technique="TLC exhaustive safety + liveness check of impl/Connection (Open/Close/reconnect/epoch/seal model); random and gate-forced concurrent API histories on live connections audited and judged by the TLA+ property module prop/Lifecycle (trace validation)",
    text="impl/Connection.tla models hsms/connection_lifecycle.go + epoch.go + the transport seal with one action per critical section (lifeMu, double-open guard, reconnectGen fence, shutdown flag, supervisor react, reconnect loop labels, teardown/join). TLC checks for two concurrent callers and up to four operations: Close leaves no loop / live epoch / socket, nothing reconnects after Close, one live generation, Open-while-open changes nothing, a recovery path always exists, Close never waits on the environment, and under weak fairness every Close terminates. On the code, seeded random histories of 2..3 API goroutines (Open background/wait-selected with ctx, Close, W-bit and async sends, UpdateConfigOptions) run with real concurrency against a peer that connects, selects, stalls, drops, resets and refuses at random (active and passive, linktest on/off), plus gate-forced races (peer accepted exactly while Close runs via the verif gate tr.accepted; redundant Open while the reconnect loop backs off). After each history the harness audits the final Close (latency <= close timeout + slack, second Close identical, State()==NotConnected, every wrapped socket/listener closed, no dial/listen for 3xT5, no state notification, no goroutine with a go-secs frame in runtime.Stack), probes Open-while-open for side effects, requires the connection to get back to Selected once the peer behaves, and re-opens with a round trip. TLC judges every history with prop/Lifecycle.",
    note="Trusted: prop/Lifecycle.tla, the wrapped net.Conn/net.Listener accounting of harness/peerkit, runtime.Stack for the goroutine audit (a runtime observation, not a model fact). Go's scheduler is sampled, not enumerated; gates force the two races named above. Finding F6 (Close blocked behind Open(wait)) was found by the model and fixed (6f99346). HSMS-SS transport only."),
+ "C19": dict(cat="model_checking", engine="linktest", design="§3.5, §4 C19",
+   technique="TLC exhaustive check of impl/LinktestLoop (runLinktest with integer time + transcribed accounting rules); exported real rules compared with the transcription on the full grid; peer personalities against a live connection judged on counts by a TLA+ acceptor",
+   text="impl/LinktestLoop.tla transcribes the auto-linktest loop and its two pure rules; TLC checks for threshold 1..3 x suppression on/off (up to 4.5 M states per configuration): a disconnect needs `threshold` consecutive counted timeouts, a silent peer is dropped exactly then, with suppression nothing is dropped while a reply is outstanding or a frame arrived since the probe and no probe is sent within an interval of traffic, without suppression every timeout counts. The exported real linktestFailureStep / linktestDisconnectRecheck agree with fn/LinktestRules on all 5400 grid points. End to end: silent, answering, slow-but-alive (answers after T6), chatty, reply-outstanding, intermittently-alive and silent-with-local-writes peers x threshold 1..3 x suppression on/off on live connections (interval 100 ms, T6 50 ms); the raw peer counts probes after the last sign of life, probes near traffic / while a reply is outstanding, probe spacing and whether/when the socket was closed; TLC judges the counts.",
+   note="Timing scenarios disturbed by > 20 ms scheduler jitter are repeated up to 3 times and otherwise excluded; more than 3 disturbed scenarios make the run inconclusive (exit 2), never a violation."),
 }
 
 NA = {
@@ -93,6 +97,8 @@ def main():
                serves_properties=["C11"], kind_free_text="fault enumeration at byte offsets against a raw peer; TLA+ property module as acceptor"),
           dict(name="lifecycle", path="spec/impl/Connection.tla spec/mc/MC_Connection*.cfg spec/prop/Lifecycle.tla spec/trace/OracleLifecycle.tla harness/cmd/vh/life.go",
                serves_properties=["C10"], kind_free_text="TLC safety+liveness model; concurrent API histories with leak audit judged by a TLA+ property module"),
+          dict(name="linktest", path="spec/impl/LinktestLoop.tla spec/fn/LinktestRules.tla spec/trace/OracleLinktest.tla harness/cmd/vh/c19.go /repo/hsmsss/export_verif.go",
+               serves_properties=["C19"], kind_free_text="TLC exhaustive loop model; pure-rule grid; peer personalities"),
         ],
         checks=checks, not_applicable=na,
         notes="All checks rebuild the Go harness from /repo's working tree (-tags verif). Exit 2 = inconclusive (never a violation).")
